@@ -513,6 +513,13 @@ where
     type AggregateResult = Vec<F::Integer>;
 
     fn encode_measurement(&self, measurement: &usize) -> Result<Vec<F>, FlpError> {
+        if *measurement >= self.length {
+            return Err(FlpError::Encode(format!(
+                "unexpected measurement: got {}; want <{}",
+                measurement, self.length
+            )));
+        }
+
         let mut data = vec![F::zero(); self.length];
 
         data[*measurement] = F::one();
